@@ -43,7 +43,6 @@ ghost var gPol1 int
 ghost var gPol2 int
 
 func isSamePolicy(spec1 *Spec, spec2 *Spec, policyName string) (same bool)
-  flag frame=unchecked
   requires spec1 != nil && spec2 != nil
   requires forall k int :: 0 <= k && k < len(spec1.Policies) ==> spec1.Policies[k] != nil
   requires forall k int :: 0 <= k && k < len(spec2.Policies) ==> spec2.Policies[k] != nil
